@@ -126,6 +126,10 @@ type GapText struct {
 	NLComments []string
 }
 
+// EmptyComment, as the text of a comment in a GapText, stands for a comment
+// without text (the empty string there means "no comment").
+const EmptyComment = "\x00"
+
 // Canonical is the layout with single blanks and nothing else.
 type Canonical struct{}
 
@@ -298,6 +302,9 @@ func (r *renderer) stream(s *Stream, top bool) {
 		pending = nil
 	}
 	comment := func(text string) {
+		if text == EmptyComment {
+			text = "" // a comment without text: "#" alone
+		}
 		r.comments = append(r.comments, Comment{Off: r.b.Len(), Text: text})
 		r.b.WriteString("#" + text)
 	}
